@@ -76,7 +76,12 @@ if '--symtime' not in sys.argv:
     for _fn in (_t.time, _t.time_ns, _t.monotonic, _t.monotonic_ns, _t.process_time, _t.process_time_ns, _t.perf_counter if hasattr(_t,'perf_counter') else None):
         REGISTERED_CONTRACTS.pop(_fn, None)
     _PATCH_REGISTRATIONS.pop(_t.sleep, None)
-core.consider_shortcircuit = lambda *a, **k: None
+_orig_csc = core.consider_shortcircuit
+def _csc(fn, sig, bound, subconditions, allow_interpretation):
+    if allow_interpretation:
+        return None          # never skip real code
+    return _orig_csc(fn, sig, bound, subconditions, allow_interpretation)  # registered environment contracts
+core.consider_shortcircuit = _csc
 import json as _json
 from crosshair.core import deep_realize as _deep_realize
 _orig_json_dump = _json.dump
@@ -116,6 +121,11 @@ _orig_add_note = BaseException.add_note
 def _add_note_realizing(self, note):
     return _orig_add_note(self, _deep_realize(note))
 _PATCH_REGISTRATIONS[BaseException.add_note] = _add_note_realizing
+import pickle as _pickle
+_orig_pdumps = _pickle.dumps
+def _pdumps_realizing(obj, *a, **kw):
+    return _orig_pdumps(_deep_realize(obj), *a, **kw)
+_PATCH_REGISTRATIONS[_pickle.dumps] = _pdumps_realizing
 modname, fname, timeout = sys.argv[1], sys.argv[2], float(sys.argv[3])
 mod = importlib.import_module(modname)
 fn = getattr(mod, fname)
